@@ -2,6 +2,6 @@
 SPECIFICATION Spec
 CONSTANTS
   Devs = {"FirstFromOnly"}
-  Families = {"A", "B", "C"}
+  Families = {"A", "B", "C", "D", "E", "F"}
   Gen = FALSE
 INVARIANT RuleIsSafe
